@@ -75,6 +75,19 @@ Inductive Exposed (R : Rset) (g : string) (k : option string) (v : json) : atree
 | ex_mem_in mems name mk s :
     In (name, (mk, s)) mems -> mopened R (name, (mk, s)) = Some true -> Exposed R g k v s -> Exposed R g k v (AObj mems).
 
+(* where the hidden node with digest g sits, as the path string the restore procedure reports for it *)
+Inductive NodePath (g : string) : atree -> string -> Prop :=
+| np_item_here items pre post salt s :
+    items = (pre ++ (IHid salt, s) :: post)%list -> g = dig_item salt s ->
+    NodePath g (AArr items) ("/" ++ show_nat (List.length pre))
+| np_item_in items pre post ik s suffix :
+    items = (pre ++ (ik, s) :: post)%list -> NodePath g s suffix ->
+    NodePath g (AArr items) ("/" ++ show_nat (List.length pre) ++ suffix)
+| np_mem_here mems name salt s :
+    In (name, (MHid salt, s)) mems -> g = dig_mem salt name s -> NodePath g (AObj mems) ("/" ++ name)
+| np_mem_in mems name mk s suffix :
+    In (name, (mk, s)) mems -> NodePath g s suffix -> NodePath g (AObj mems) ("/" ++ name ++ suffix).
+
 Lemma Exposed_arr_inv R g k v items : Exposed R g k v (AArr items) ->
   (exists salt s, In (IHid salt, s) items /\ g = dig_item salt s /\ R g = false /\ k = None /\ v = blind s) \/
   (exists ik s, In (ik, s) items /\ iopened R (ik, s) = Some true /\ Exposed R g k v s).
